@@ -1,7 +1,7 @@
 SPECIFICATION MCSpec
 CONSTANTS
   Self = 5
-  Peers = {5, 1, 2, 3, 13}
+  Peers = {5, 1, 2, 3}
   Chunks = {}
   Ttls = {}
   RegTtls = {0, 1, 2}
